@@ -291,7 +291,7 @@ fn main() {
 
     let rich = !ctx.quick();
     // periodic longer maps (12 objects), a reduced settings menu, every prefix, every consistent score state of up to 6 judgements
-    for mu in vh::uni::motif_universes(&MODE_CFGS, 2, ctx.pick(6, 8), false) {
+    for mu in vh::uni::motif_universes(&MODE_CFGS, 2, ctx.pick(6, 8), false).into_iter().chain(vh::uni::rhythm_universes(&MODE_CFGS, 3, ctx.pick(3, 4))) {
         let menu: Vec<Setting> = vec![Setting::nm(), Setting::bits(settings::RX | settings::FL), Setting { lazer: Some(false), ..Setting::bits(settings::HR | settings::DT) }, Setting { rate: Some(0.5), ..Setting::bits(settings::EZ | settings::FL) }];
         ctx.universe(&mu.name, mu.total, |idx, l| {
             let spec = mu.spec(idx);
